@@ -157,7 +157,7 @@ func TestVerif_C09_Overlap(t *testing.T) {
 // openssl default) and forged ones signed by another - valid or revoked - certificate of the
 // same account.
 
-const c09HistoryRule = "history on one TLS configuration in which a certificate is presented after >=1 earlier successful verification and >=1 revocation, or a forged certificate signed by another certificate of the same account is presented"
+const c09HistoryRule = "history on one TLS configuration in which a certificate is presented after >=1 earlier successful verification and >=1 revocation, or a forged certificate signed by another certificate of the same account is presented, or a certificate is presented again after its validity ended while the gateway was running"
 
 type c09Reg struct {
 	spec    c09Spec
@@ -250,6 +250,10 @@ func TestVerif_C09_History(t *testing.T) {
 		accepted, revocations, interesting := 0, 0, false
 		serials := []int64{21, 22, 23}
 		steps := rapid.IntRange(3, 10).Draw(t, "steps")
+		// in some histories the certificate with serial 23 is short-lived: it is registered and
+		// served while valid, and its validity ends while the gateway is still running
+		shortLived := rapid.IntRange(0, 7).Draw(t, "shortLived23") == 0
+		const shortLife = 2 * time.Second
 		// follow-ups that make the rare orders likely: a certificate that was just served gets
 		// revoked; a revocation is followed by an outage of the chain node and another request
 		var forced []int
@@ -271,6 +275,15 @@ func TestVerif_C09_History(t *testing.T) {
 				}
 			}
 			switch op {
+			case 7: // wall-clock time passes until the short-lived certificate is no longer valid
+				if r == nil || !shortLived || s != 23 {
+					continue
+				}
+				if d := time.Until(r.spec.notAfter.Add(150 * time.Millisecond)); d > 0 {
+					time.Sleep(d)
+				}
+				hist = append(hist, "validity-of-23-ends")
+				interesting = interesting || accepted > 0
 			case 6: // the chain node becomes unreachable / reachable again
 				chain.mu.Lock()
 				chain.down = !chain.down
@@ -283,6 +296,11 @@ func TestVerif_C09_History(t *testing.T) {
 					continue
 				}
 				spec := c09Spec{cn: owner.String(), serial: big.NewInt(s), notBefore: now.Add(-30 * day), notAfter: now.Add(300 * day), clientAuth: true}
+				if shortLived && s == 23 {
+					spec.notAfter = time.Now().Add(shortLife).Truncate(time.Second) // certificates record whole seconds
+					// serve it once while valid, let its validity end, present it again
+					forced, forcedSerial = []int{3, 7, 3}, s
+				}
 				isCA := rapid.Bool().Draw(t, "mayIssue")
 				c := c09MakeCA(spec, isCA)
 				if err := chain.k.CreateCertificate(chain.ctx, owner, c.pem, c.pub); err != nil {
@@ -312,6 +330,15 @@ func TestVerif_C09_History(t *testing.T) {
 					der = r.cert.der
 					if !r.revoked {
 						expect = "accept"
+					}
+					if shortLived && s == 23 {
+						// decide only well away from the instant itself
+						switch left := time.Until(r.spec.notAfter); {
+						case left < -100*time.Millisecond:
+							expect = "reject"
+						case left < 300*time.Millisecond:
+							expect = "any"
+						}
 					}
 				case "self-made":
 					spec := c09Spec{cn: owner.String(), serial: big.NewInt(s), notBefore: now.Add(-30 * day), notAfter: now.Add(300 * day), clientAuth: true}
@@ -344,6 +371,9 @@ func TestVerif_C09_History(t *testing.T) {
 				if expect == "accept" && verr != nil {
 					t.Fatalf("C09 VIOLATION key=c09-genuine-rejected: the account's registered, unrevoked certificate %d was rejected: %v\n-- history: %v", s, verr, hist)
 				}
+				if expect == "reject" && verr == nil && kind == "genuine" && !r.revoked {
+					t.Fatalf("C09 VIOLATION key=c09-expired-accepted: certificate %d was accepted after its validity had ended (NotAfter %s, now %s)\n-- history: %v", s, r.spec.notAfter.Format(time.RFC3339Nano), time.Now().Format(time.RFC3339Nano), hist)
+				}
 				if expect == "reject" && verr == nil {
 					t.Fatalf("C09 VIOLATION key=c09-%s-accepted-after-history: a %s certificate claiming serial %d was ACCEPTED\n-- history: %v", kind, kind, s, hist)
 				}
@@ -353,6 +383,9 @@ func TestVerif_C09_History(t *testing.T) {
 				if kind == "genuine" {
 					reached, status := served(s, r.cert)
 					hist = append(hist, fmt.Sprintf("request(%d)->reached=%v,status=%d", s, reached, status))
+					if expect == "reject" && reached && !r.revoked {
+						t.Fatalf("C09 VIOLATION key=c09-expired-served: a request over TLS with certificate %d, whose validity ended while the gateway was running, reached the provider's handlers as %s (status %d)\n-- history: %v", s, owner, status, hist)
+					}
 					if expect == "reject" && reached {
 						t.Fatalf("C09 VIOLATION key=c09-revoked-served: a request over TLS with certificate %d, which is revoked on chain, reached the provider's handlers as %s (status %d)\n-- history: %v", s, owner, status, hist)
 					}
